@@ -1,0 +1,111 @@
+//go:build verif
+
+package rtph265
+
+// Contracts checked by /verif/govc (see /verif/DESIGN.md). Comment-only file.
+
+//@ func packetCount
+//@   requires avail > 0 && le >= 0
+//@   ensures ret >= 0 && (ret-1)*avail < le && le <= ret*avail
+//@   modifies nothing
+
+// lenagg(s, n): size of an aggregation unit payload aggregating the first n units of s.
+//@ spec nn(x int) int = ite(x >= 0, x, 0)
+//@ ufun lenagg(s [][]byte, n int) int = ite(n <= 0, 2, lenagg(s, n-1) + 2 + nn(len(s[n-1])))
+//@   lemma[n; t [][]byte] (forall k :: 0 <= k && k < n ==> len(s[k]) == len(t[k])) ==> lenagg(s, n) == lenagg(t, n)
+//@   trigger lenagg(s, n)
+//@   trigger lenagg(t, n)
+//@   lemma[n; j int] 0 <= j && j <= n ==> lenagg(s, j) <= lenagg(s, n) && lenagg(s, j) >= 2
+//@   trigger lenagg(s, j)
+//@   trigger lenagg(s, n)
+
+//@ func (e *Encoder) lenAggregationUnit
+//@   ensures addNALU == nil ==> ret == lenagg(nalus, len(nalus))
+//@   ensures addNALU != nil ==> ret == lenagg(nalus, len(nalus)) + 2 + len(addNALU)
+//@   modifies nothing
+//@   loop 1
+//@     invariant 0 <= _i && _i <= len(nalus) && ret == lenagg(nalus, _i)
+
+//@ func (e *Encoder) writeSingle
+//@   requires e.SSRC != nil
+//@   ensures[C06] err == nil && len(ret) == 1 && ret[0] != nil
+//@   ensures[C06] sameslice(ret[0].Payload, nalu)
+//@   ensures[C06] ret[0].SequenceNumber == old(e.sequenceNumber) && e.sequenceNumber == old(e.sequenceNumber) + 1
+//@   ensures[C06] ret[0].Marker == marker && ret[0].PayloadType == e.PayloadType && ret[0].SSRC == *e.SSRC
+//@   ensures fresh(ret) && fresh(ret[0])
+//@   modifies e.sequenceNumber, fresh
+
+//@ func (e *Encoder) writeFragmentationUnits
+//@   requires e.SSRC != nil && 4 <= e.PayloadMaxSize && e.PayloadMaxSize <= 65535
+//@   requires len(nalu) >= 3
+//@   ensures[C06] err == nil && len(ret) >= 1
+//@   ensures[C06] forall j :: 0 <= j && j < len(ret) ==> ret[j] != nil && len(ret[j].Payload) <= e.PayloadMaxSize
+//@   ensures[C06] forall j :: 0 <= j && j < len(ret) ==> ret[j].SequenceNumber == old(e.sequenceNumber) + uint16(j)
+//@   ensures[C06] e.sequenceNumber == old(e.sequenceNumber) + uint16(len(ret))
+//@   ensures[C06] forall j :: 0 <= j && j < len(ret) ==> ret[j].Marker == (marker && j == len(ret)-1)
+//@   ensures[C06] forall j :: 0 <= j && j < len(ret) ==> ret[j].PayloadType == e.PayloadType && ret[j].SSRC == *e.SSRC
+//@   ensures fresh(ret)
+//@   ensures forall j :: 0 <= j && j < len(ret) ==> fresh(ret[j])
+//@   modifies e.sequenceNumber, fresh
+//@   loop 1
+//@     invariant 0 <= i && i <= packetCount && len(ret) == packetCount && packetCount >= 1
+//@     invariant avail == e.PayloadMaxSize - 3 && e.PayloadMaxSize == old(e.PayloadMaxSize) && e.SSRC == old(e.SSRC) && e.PayloadType == old(e.PayloadType) && *e.SSRC == old(*e.SSRC)
+//@     invariant i < packetCount ==> len(nalu) + i*avail == len(old(nalu)) - 2
+//@     invariant i < packetCount ==> le == avail
+//@     invariant (packetCount-1)*avail < len(old(nalu)) - 2 && len(old(nalu)) - 2 <= packetCount*avail
+//@     invariant e.sequenceNumber == old(e.sequenceNumber) + uint16(i)
+//@     invariant fresh(ret)
+//@     invariant forall j :: 0 <= j && j < i ==> ret[j] != nil && fresh(ret[j]) && len(ret[j].Payload) <= e.PayloadMaxSize
+//@     invariant forall j :: 0 <= j && j < i ==> ret[j].SequenceNumber == old(e.sequenceNumber) + uint16(j)
+//@     invariant forall j :: 0 <= j && j < i ==> ret[j].Marker == (marker && j == packetCount-1)
+//@     invariant forall j :: 0 <= j && j < i ==> ret[j].PayloadType == e.PayloadType && ret[j].SSRC == *e.SSRC
+//@     decreases packetCount - i
+
+//@ func (e *Encoder) writeAggregationUnit
+//@   opt frame-tag=C06
+//@   requires e.SSRC != nil && len(nalus) >= 1 && lenagg(nalus, len(nalus)) <= 65535
+//@   requires forall k :: 0 <= k && k < len(nalus) ==> len(nalus[k]) >= 2
+//@   ensures[C06] err == nil && len(ret) == 1 && ret[0] != nil && fresh(ret) && fresh(ret[0])
+//@   ensures[C06] len(ret[0].Payload) == lenagg(nalus, len(nalus))
+//@   ensures[C06] ret[0].SequenceNumber == old(e.sequenceNumber) && e.sequenceNumber == old(e.sequenceNumber) + 1
+//@   ensures[C06] ret[0].Marker == marker && ret[0].PayloadType == e.PayloadType && ret[0].SSRC == *e.SSRC
+//@   modifies e.sequenceNumber, fresh
+//@   loop 1
+//@     invariant 0 <= _i && _i <= len(nalus) && pos == lenagg(nalus, _i) && len(payload) == lenagg(nalus, len(nalus)) && fresh(payload)
+//@     invariant forall k :: 0 <= k && k < len(nalus) ==> len(nalus[k]) >= 2
+
+//@ func (e *Encoder) writeBatch
+//@   opt frame-tag=C06
+//@   requires e.SSRC != nil && 4 <= e.PayloadMaxSize && e.PayloadMaxSize <= 65535 && len(nalus) >= 1
+//@   requires forall k :: 0 <= k && k < len(nalus) ==> len(nalus[k]) >= 2
+//@   requires len(nalus) >= 2 ==> lenagg(nalus, len(nalus)) <= e.PayloadMaxSize
+//@   ensures[C06] err == nil && len(ret) >= 1 && fresh(ret)
+//@   ensures[C06] forall j :: 0 <= j && j < len(ret) ==> ret[j] != nil && fresh(ret[j]) && len(ret[j].Payload) <= e.PayloadMaxSize
+//@   ensures[C06] forall j :: 0 <= j && j < len(ret) ==> ret[j].SequenceNumber == old(e.sequenceNumber) + uint16(j)
+//@   ensures[C06] e.sequenceNumber == old(e.sequenceNumber) + uint16(len(ret))
+//@   ensures[C06] forall j :: 0 <= j && j < len(ret) ==> ret[j].Marker == (marker && j == len(ret)-1)
+//@   ensures[C06] forall j :: 0 <= j && j < len(ret) ==> ret[j].PayloadType == e.PayloadType && ret[j].SSRC == *e.SSRC
+//@   modifies e.sequenceNumber, fresh
+
+// Encode: documented precondition "AU must contain at least 1 element"; every H265 NAL unit has a 2-byte header.
+//@ func (e *Encoder) Encode
+//@   opt frame-tag=C06
+//@   requires e.SSRC != nil && 4 <= e.PayloadMaxSize && e.PayloadMaxSize <= 65535 && len(au) >= 1
+//@   requires forall k :: 0 <= k && k < len(au) ==> len(au[k]) >= 2
+//@   ensures[C06] err == nil && len(ret) >= 1
+//@   ensures[C06] forall j :: 0 <= j && j < len(ret) ==> ret[j] != nil && len(ret[j].Payload) <= e.PayloadMaxSize
+//@   ensures[C06] forall j :: 0 <= j && j < len(ret) ==> ret[j].SequenceNumber == old(e.sequenceNumber) + uint16(j)
+//@   ensures[C06] e.sequenceNumber == old(e.sequenceNumber) + uint16(len(ret))
+//@   ensures[C06] forall j :: 0 <= j && j < len(ret) ==> ret[j].Marker == (j == len(ret)-1)
+//@   ensures[C06] forall j :: 0 <= j && j < len(ret) ==> ret[j].PayloadType == e.PayloadType && ret[j].SSRC == *e.SSRC
+//@   modifies e.sequenceNumber, fresh
+//@   loop 1
+//@     invariant 0 <= _i && _i <= len(au) && (_i >= 1 ==> batch != nil)
+//@     invariant batch != nil ==> len(batch) >= 1 && fresh(batch)
+//@     invariant forall k :: 0 <= k && k < len(batch) ==> len(batch[k]) >= 2
+//@     invariant len(batch) >= 2 ==> lenagg(batch, len(batch)) <= e.PayloadMaxSize
+//@     invariant e.sequenceNumber == old(e.sequenceNumber) + uint16(len(rets)) && len(rets) >= 0 && (rets != nil ==> fresh(rets))
+//@     invariant e.SSRC == old(e.SSRC) && e.PayloadMaxSize == old(e.PayloadMaxSize) && e.PayloadType == old(e.PayloadType) && *e.SSRC == old(*e.SSRC)
+//@     invariant forall j :: 0 <= j && j < len(rets) ==> rets[j] != nil && fresh(rets[j]) && len(rets[j].Payload) <= e.PayloadMaxSize && !rets[j].Marker
+//@     invariant forall j :: 0 <= j && j < len(rets) ==> rets[j].SequenceNumber == old(e.sequenceNumber) + uint16(j)
+//@     invariant forall j :: 0 <= j && j < len(rets) ==> rets[j].PayloadType == e.PayloadType && rets[j].SSRC == *e.SSRC
